@@ -34,6 +34,7 @@ class Interp:
         self.max_depth = 12
         self.time_terms = []
         self._shape_done = {}
+        self.generic_scopes = []   # [(bound z3 consts, index into run.scopes)] of the summarised comprehensions being evaluated
 
     # ================================================================ scalars
     def strlit(self, s):
@@ -163,9 +164,10 @@ class Interp:
     def assume_domain(self, v):
         """shape validity of a freshly read value: enum domain, list length >= 0, non-null for non-Optional refs"""
         if isinstance(v, SV):
-            if v.ty == STR:
-                self.run.assume(v.t != STR_NONE, silent=True)    # a value declared str is not None (shape validity)
-            elif isinstance(v.ty, TEnum):
+            if v.ty == STR and not z3.is_const(v.t):
+                # a value read where `str` is declared is not None (STR_NONE only represents None inside Optional[str])
+                self.run.assume(v.t != STR_NONE, silent=True)
+            if isinstance(v.ty, TEnum):
                 self.run.assume(self.ts.enum_domain(v.t, v.ty.name), silent=True)
             elif isinstance(v.ty, TOpt) and isinstance(v.ty.t, TEnum) and v.t.sort() not in (Ref, Str):
                 s = v.t.sort()
@@ -729,15 +731,46 @@ class Interp:
         self.heap.set(hn, z3.Store(ha, d.ref, z3.Store(ha[d.ref], kt, False)))
         self._dict_order_havoc(d)
 
-    # insertion order ghost (only materialised for dicts whose order is observed; see seqs.py)
+    # insertion order ghost: per dict a sequence ord[0..olen) of its keys (python dicts iterate in insertion order).
+    # Updated exactly on insertion of a new key / clear / copy / comprehension, havocked on deletion. Only *observed* by
+    # ordered iteration (dict_ordered_iter), which then assumes that ord enumerates the keys without repetition - true of
+    # every real dict at every moment, hence sound wherever it is assumed.
+    def dict_order(self, d):
+        ks = sort_of(d.kty)
+        h = self.H(d)
+        return (f'D.ord:{ks}', h.get(f'D.ord:{ks}', arr(Ref, arr(I, ks))), f'D.olen:{ks}', h.get(f'D.olen:{ks}', arr(Ref, I)))
+
+    def dict_order_set(self, d, row, length):
+        on, oa, ln, la = self.dict_order(d)
+        if row is not None:
+            self.heap.set(on, z3.Store(oa, d.ref, row))
+        self.heap.set(ln, z3.Store(la, d.ref, length))
+
     def _dict_order_reset(self, d):
-        pass
+        self.dict_order_set(d, None, z3.IntVal(0))
 
     def _dict_order_store(self, d, kt, was_present):
-        pass
+        on, oa, ln, la = self.dict_order(d)
+        n = la[d.ref]
+        self.dict_order_set(d, z3.If(was_present, oa[d.ref], z3.Store(oa[d.ref], n, kt)), z3.If(was_present, n, n + 1))
 
     def _dict_order_havoc(self, d):
-        pass
+        on, oa, ln, la = self.dict_order(d)
+        self.dict_order_set(d, self.run.fresh('ord', oa[d.ref].sort()), self.run.fresh('olen', I))
+
+    def dict_ordered_iter(self, d):
+        """(index const j, guard 0<=j<olen, key term ord[j]) for iteration in insertion order"""
+        on, oa, ln, la = self.dict_order(d)
+        row, n = oa[d.ref], la[d.ref]
+        has = self.dict_has(d)[1][d.ref]
+        i, j = z3.Const('i!do', I), z3.Const('j!do', I)
+        k = z3.Const('k!do', sort_of(d.kty))
+        self.run.assume(n >= 0, silent=True)
+        self.run.assume(z3.ForAll([i], z3.Implies(z3.And(0 <= i, i < n), has[row[i]])), silent=True)
+        self.run.assume(z3.ForAll([k], z3.Implies(has[k], z3.Exists([i], z3.And(0 <= i, i < n, row[i] == k)))), silent=True)
+        self.run.assume(z3.ForAll([i, j], z3.Implies(z3.And(0 <= i, i < j, j < n), row[i] != row[j])), silent=True)
+        x = self.run.fresh('gj', I)
+        return x, z3.And(0 <= x, x < n), row[x]
 
     def dict_eq(self, a, b):
         if isinstance(b, ConstDict) and not b.items:
@@ -1836,8 +1869,18 @@ class PathEnd(Exception):
 
 
 class InterpComp:
-    def generic_iter(self, coll):
-        """(bound z3 consts, guard term, element value) describing an arbitrary element of a symbolic collection"""
+    def generic_iter(self, coll, ordered=False):
+        """(bound z3 consts, guard term, element value) describing an arbitrary element of a symbolic collection;
+        ordered=True: dicts are enumerated through their insertion-order ghost (bound variable = position)"""
+        if ordered and isinstance(coll, (DictV, ValuesView)):
+            d = coll.d if isinstance(coll, ValuesView) else coll
+            what = coll.what if isinstance(coll, ValuesView) else 'keys'
+            j, guard, k = self.dict_ordered_iter(d)
+            kv = self.wrap(k, d.kty, d.heap)
+            if what == 'keys':
+                return [j], guard, kv
+            vv = self.wrap(self.dict_val(d)[1][d.ref][k], d.vty, d.heap)
+            return [j], guard, (vv if what == 'values' else (kv, vv))
         if isinstance(coll, ListV):
             i = self.run.fresh('gi', I)
             return [i], z3.And(0 <= i, i < self.list_len(coll)), self.list_get_nodom(coll, i)
@@ -1908,10 +1951,11 @@ class InterpComp:
         else:
             raise Unsupported(f'assignment target {type(tgt).__name__}')
 
-    def quantified_gen(self, gen, want):
+    def quantified_gen(self, gen, want, ordered=False):
         """Summarise a comprehension over symbolic collection(s) (one generator, or nested generators all of which
         range over symbolic collections: the bound variables and guards of the generators are accumulated).
-        want: 'any' / 'all' -> Bool term; 'elems' -> (vars, guard(with ifs), value) for further use."""
+        want: 'any' / 'all' -> Bool term; 'elems' -> (vars, guard(with ifs), value) for further use.
+        ordered=True: a dict source is enumerated by position in its insertion order (result collection = OrdIter)"""
         node, fr = gen.node, gen.frame
         if len(node.generators) != 1:
             return self._quantified_gen_nested(node, fr, want)
@@ -1920,37 +1964,30 @@ class InterpComp:
         items = self.iter_const(coll)
         if items is not None:
             return ('const', items, g, node, fr)
-        vars_, guard, val = self.generic_iter(coll)
+        vars_, guard, val = self.generic_iter(coll, ordered)
+        if ordered and isinstance(coll, (DictV, ValuesView)):
+            coll = OrdIter(coll)
         sub = Frame(fr.fi, fr.module, dict(fr.vars), fr.selfv, fr.defcls)
         saved = self.mode
         if self.mode == EXEC:
             self.mode = GENERIC
         self.run.push()
+        self.generic_scopes.append((list(vars_), len(self.run.scopes)))
         try:
-            all_vars, conds, first_coll = [], [], None
-            for g in node.generators:
-                if g.is_async:
-                    raise Unsupported('async generator')
-                coll = self.ev(g.iter, sub)
-                if len(node.generators) > 1 and self.iter_const(coll) is not None:
-                    raise Unsupported('nested generators mixing constant and symbolic collections')
-                if first_coll is None:
-                    first_coll = coll
-                vars_, guard, val = self.generic_iter(coll)
-                all_vars.extend(vars_)
-                self.run.assume(guard)
-                self.assume_domain(val)
-                self.bind_target(g.target, val, sub)
-                conds.append(guard)
-                for c in g.ifs:
-                    ct = self.as_bool(self.truthy(self.ev(c, sub)))
-                    conds.append(ct)
-                    self.run.assume(ct)
+            self.run.assume(guard)
+            self.assume_domain(val)
+            self.bind_target(g.target, val, sub)
+            conds = [guard]
+            for c in g.ifs:
+                ct = self.as_bool(self.truthy(self.ev(c, sub)))
+                conds.append(ct)
+                self.run.assume(ct)
             elt = self.ev(node.elt, sub) if want != 'guard' else None
         finally:
+            self.generic_scopes.pop()
             self.run.pop()
             self.mode = saved
-        return ('sym', all_vars, z3.And(conds) if len(conds) > 1 else conds[0], elt, first_coll)
+        return ('sym', vars_, z3.And(conds) if len(conds) > 1 else conds[0], elt, coll)
 
     def _quantified_gen_nested(self, node, fr, want):
         """several `for` clauses, all over symbolic collections (later ones may depend on earlier targets): one bound
